@@ -185,7 +185,7 @@ Inductive op : Type :=
 | ODefSub (h : N) (sp : subspec)                       (* Subroutine(...)(fn) / ABIReturnSubroutine(fn) *)
 | OProbe (h : N)                                       (* h.type_of() *)
 | OCompile (calls : list N) (fp : bool) (main_fails : bool) (bad : list N)   (* compileTeal of an expression referencing [calls] *)
-| ORouter (ms : list rmethod) (bare : list N) (fp : bool)     (* Router.compile_program *)
+| ORouter (ms : list rmethod) (bare : list N) (fp : bool) (bad : list N)   (* Router.compile_program; [bad] as in OCompile *)
 | OResetMarker                                         (* the session runner clears a stuck marker *)
 | OOpaque (dslot dsub dlocals : N).                    (* a step outside the model: observed deltas (slot counter,
                                                           subroutine counter, locals of the Proto the marker names) *)
@@ -216,7 +216,7 @@ Fixpoint methods_build_events (t : tbl) (fp : bool) (ms : list rmethod) : evs * 
 
 (* compile of the approval program with frame pointers: each method is reached through a caster
    subroutine created by this build (ids above every existing one, in method order) *)
-Fixpoint router_fp_walk (t : tbl) (ms : list rmethod) (vis : list N) : evs * tbl :=
+Fixpoint router_fp_walk (t : tbl) (bad : list N) (ms : list rmethod) (vis : list N) : evs * tbl :=
   match ms with
   | [] => (ENil, t)
   | m :: rest =>
@@ -224,9 +224,9 @@ Fixpoint router_fp_walk (t : tbl) (ms : list rmethod) (vis : list N) : evs * tbl
       let caster := one (ECtx (Some (rm_h m + MAIN, N.of_nat (rm_nargs m) + (if rm_returns m then 1 else 0))) ENil) in
       let vis1 := corder FUEL (key_of t) (calls_of t []) (rm_h m) vis in
       let fresh := filter (fun h => negb (memN h vis)) vis1 in
-      let '(e, t1) := eval_nodes FUEL t true [] fresh in
+      let '(e, t1) := eval_nodes FUEL t true bad fresh in
       if raises e then (evs_app caster e, t1)
-      else let '(es, t2) := router_fp_walk t1 rest vis1 in (evs_app caster (evs_app e es), t2)
+      else let '(es, t2) := router_fp_walk t1 bad rest vis1 in (evs_app caster (evs_app e es), t2)
   end.
 
 (* BareCallActions.approval_construction: wrap_handler(False, h) asks h.type_of() of every
@@ -249,7 +249,7 @@ Definition op_events (st : sstate) (o : op) : evs * tbl :=
   | OCompile calls fp main_fails bad =>
       if main_fails then (one ERaise, t)
       else eval_nodes FUEL t fp bad (corder FUEL (key_of t) (calls_of t calls) MAIN [])
-  | ORouter ms bare fp =>
+  | ORouter ms bare fp bad =>
       let '(b0, t0) := bare_events t bare in
       if raises b0 then (one (EClean b0), t0) else
       let '(b1, t1) := methods_build_events t0 fp ms in
@@ -257,11 +257,11 @@ Definition op_events (st : sstate) (o : op) : evs * tbl :=
       if raises b then (one (EClean b), t1)
       else if fp then
         let vis0 := corder FUEL (key_of t1) (calls_of t1 bare) MAIN [] in
-        let '(e0, t2) := eval_nodes FUEL t1 true [] vis0 in
+        let '(e0, t2) := eval_nodes FUEL t1 true bad vis0 in
         if raises e0 then (one (EClean (evs_app b e0)), t2)
-        else let '(e1, t3) := router_fp_walk t2 ms vis0 in (one (EClean (evs_app b (evs_app e0 e1))), t3)
+        else let '(e1, t3) := router_fp_walk t2 bad ms vis0 in (one (EClean (evs_app b (evs_app e0 e1))), t3)
       else
-        let '(e, t2) := eval_nodes FUEL t1 false []
+        let '(e, t2) := eval_nodes FUEL t1 false bad
                           (corder FUEL (key_of t1) (calls_of t1 (bare ++ map rm_h ms)) MAIN []) in
         (one (EClean (evs_app b e)), t2)
   | OResetMarker => (ENil, t)
